@@ -121,7 +121,19 @@ func f3() {
 }
 
 // further fact families are registered here as they are built
-func extra() { f2(); f3(); f7(); f9(); f10(); t1(); f12(); t2(); t3() }
+func extra() {
+	f2()
+	f3()
+	f7()
+	f9()
+	f10()
+	t1()
+	f12()
+	t2()
+	t3()
+	t4()
+	t5()
+}
 
 // F7: per clone function of workflow/utils/clone/clone.go, the fields that are always copied (keys of
 // the composite literal + assignments `x.F = …` outside any `if opts.keepState`) and the fields copied
